@@ -5,6 +5,7 @@ from types import MappingProxyType
 from typing import (
     Callable,
     Iterable,
+    Iterator,
     NamedTuple,
     Sequence,
     TYPE_CHECKING,
@@ -238,11 +239,17 @@ class TomogramSimulator:
             raise ValueError("The shape must be a 3-tuple.")
         return self._simulate(shape)
 
+    def _iter_nonempty_components(self) -> Iterator[Component]:
+        """Components with at least one molecule (an empty one adds nothing)."""
+        for comp in self._components.values():
+            if comp.molecules.count() > 0:
+                yield comp
+
     def _simulate(self, shape: tuple[pixel, pixel, pixel]):
         """Simulate a grayscale tomogram."""
         tomogram = np.zeros(shape, dtype=np.float32)
         pool = DaskTaskPool.from_func(_simulate_one)
-        for mol, image in self._components.values():
+        for mol, image in self._iter_nonempty_components():
             img = self._get_image(image)
             starts, stops, mtxs = _prep_iterators(mol, img.shape, self._scale)
             for start, stop, mtx in zip(starts, stops, mtxs):
@@ -274,7 +281,7 @@ class TomogramSimulator:
 
         tomogram = np.zeros((3,) + shape, dtype=np.float32)
         pool = DaskTaskPool.from_func(_simulate_color_one)
-        for mol, image in self._components.values():
+        for mol, image in self._iter_nonempty_components():
             img = self._get_image(image)
             starts, stops, mtxs = _prep_iterators(mol, img.shape, self._scale)
             feat = mol.features
@@ -294,7 +301,7 @@ class TomogramSimulator:
         """Simulate a grayscale tomogram."""
         projection = np.zeros(shape, dtype=np.float32)
         pool = DaskTaskPool.from_func(_simulate_2d_one)
-        for mol, image in self._components.values():
+        for mol, image in self._iter_nonempty_components():
             img = self._get_image(image)
             starts, stops, mtxs = _prep_iterators(mol, img.shape, self._scale)
             zsize = mol.pos[:, 0].max() / self.scale + np.sum(img.shape)
@@ -348,7 +355,7 @@ class TomogramSimulator:
             raise ValueError(f"xaxis {xaxis!r} and yaxis {yaxis!r} are not orthogonal.")
         rc = np.asarray(center, dtype=np.float32)
         pool = DaskTaskPool.from_func(_simulate_projection_one)
-        for mol, image in self._components.values():
+        for mol, image in self._iter_nonempty_components():
             img = self._get_image(image)
             pos_scaled = (mol.pos - rc) / self.scale
             xcoords = pos_scaled.dot(ex) + (shape[1] - 1) / 2
@@ -397,7 +404,7 @@ class TomogramSimulator:
         pool = DaskTaskPool.from_func(_simulate_projection_one_labeled)
         for i, rad in enumerate(rads):
             ex = np.array([np.sin(rad), 0, np.cos(rad)], dtype=np.float32)
-            for mol, image in self._components.values():
+            for mol, image in self._iter_nonempty_components():
                 img = self._get_image(image)
                 pos_scaled = (mol.pos - rc) / self.scale
                 xcoords = pos_scaled.dot(ex) + (shape[2] - 1) / 2
